@@ -54,6 +54,15 @@ Definition dec32 (b:Z) : bool * Z * Z :=
   let neg := 2^31 <=? b in let r := b mod 2^31 in let ef := r / 2^23 in let fr := r mod 2^23 in
   let '(m,q) := if ef =? 0 then (fr, -149) else (fr + 2^23, ef - 150) in
   (neg, if 0 <=? q then m * 2^q else m, if 0 <=? q then 1 else 2^(-q)).
-Definition fmt_double (P:Z) (bits:Z) : list Z := let '(neg,n,d) := dec64 bits in fmt_g P neg n d.
-Definition fmt_float (P:Z) (bits:Z) : list Z := let '(neg,n,d) := dec32 bits in fmt_g P neg n d.
+(* infinities and NaNs have fixed spellings (glibc prints the sign bit of a NaN as well) *)
+Definition nonfinite (neg:bool) (frac:Z) : list Z :=
+  (if neg then [45] else []) ++ (if frac =? 0 then [105;110;102] else [110;97;110]).
+Definition fmt_double (P:Z) (bits:Z) : list Z :=
+  let r := bits mod 2^63 in
+  if r / 2^52 =? 2047 then nonfinite (2^63 <=? bits) (r mod 2^52)
+  else let '(neg,n,d) := dec64 bits in fmt_g P neg n d.
+Definition fmt_float (P:Z) (bits:Z) : list Z :=
+  let r := bits mod 2^31 in
+  if r / 2^23 =? 255 then nonfinite (2^31 <=? bits) (r mod 2^23)
+  else let '(neg,n,d) := dec32 bits in fmt_g P neg n d.
 
